@@ -28,6 +28,7 @@ RULE = (
     "round-robin leaders that are Byzantine or stopped); no honest node stops by itself; no hang (watchdog); C01 "
     "agreement + consecutive append-only stores + committed blocks certified by votes in the soup; C02 one certified "
     "payload per block number; C03 one commit vote per honest key and view across crashes. "
+    "Directed families (fixed fractions of the schedules): commit-then-timeout on weighted committees (2 in 8), split vote then commit-then-timeout (1 in 8), laggard after a partial view change (1 in 8: fewer than a quorum enter v+1 while the laggards are partitioned away for more than one view timeout and everything sent to them is lost (SLoseAllTo), one member silent or stopped; variants: next leader lags, two laggards, half/half; also every third live run, with deaf nodes). "
     "R(k) derivation (round = deliver everything sent before the round to everybody, sync blocks, fire the timer of "
     "every node whose view did not change): <= 3 rounds until every up node has re-broadcast or received the highest "
     "justification (a node that moved by accepting a proposal only announces its certificate at its next timer), "
